@@ -26,7 +26,22 @@ pub const KINDS: &[&str] = &[
 
 fn blob(rng: &mut Rng, max: usize) -> Vec<u8> {
     let n = rng.small_len(max);
-    rng.bytes(n)
+    match rng.below(8) {
+        // host names / protocol names are text: printable ASCII, or UTF-8 with multi-byte
+        // characters (possibly cut in the middle of a character by the length budget)
+        0 | 1 => (0..n).map(|_| *rng.pick(b"abcdefghijklmnopqrstuvwxyz0123456789.-_/ ")).collect(),
+        2 => {
+            let mut v = Vec::new();
+            while v.len() < n {
+                let c = *rng.pick(&['a', 'é', 'ß', '中', '€', '😀', '\u{7f}', '\0', '\u{80}', '\u{7ff}', '\u{800}', '\u{ffff}', '\u{10000}']);
+                let mut b = [0u8; 4];
+                v.extend_from_slice(c.encode_utf8(&mut b).as_bytes());
+            }
+            v.truncate(n);
+            v
+        }
+        _ => rng.bytes(n),
+    }
 }
 
 const EXT_TYPES: &[u16] = &[0, 1, 5, 10, 11, 13, 15, 16, 18, 21, 22, 23, 28, 35, 40, 41, 42, 43, 44, 45, 48, 49, 51, 13172, 0xff01, 0xffce];
